@@ -375,23 +375,8 @@ func vcRunC13(t *vcTrial, cfg vc13Cfg) {
 				c := vcInner(rec.Conn)
 				// root cause from the trace: closed by the peer's hang-up before the accept path had
 				// stored it (D30), as opposed to an accept that was in flight when Shutdown began (D15)
-				// (the table is only ever shrunk by the connection's own close callback and by the accept
-				// path's two IsActive() checks: closed by the peer, handler running, close callbacks not
-				// started and yet untracked leaves the accept path)
-				hup, cbStarted := false, false
-				for _, e := range vcTraceSince(mark) {
-					if e.Obj != rec.ID {
-						continue
-					}
-					switch int(e.Point) {
-					case vpOnHupAfterCloseBy:
-						hup = true
-					case vpCloseCbBeforeRun:
-						cbStarted = true
-					}
-				}
 				why := ""
-				if late == "" && hup && !cbStarted && atomic.LoadInt32(&rec.depth) > 0 {
+				if late == "" && atomic.LoadInt32(&rec.depth) > 0 && vc13HupDuringAccept(vcTraceSince(mark), rec.ID) {
 					why = " [" + vc13ClosedWhileAccepted + "]"
 				}
 				t.Violate("C13", "nil_with_open_connection", "Shutdown returned nil but accepted connection fd=%d has not run its close callbacks (active=%v, history %v)%s%s", rec.FD, c.IsActive(), rec.history(), late, why)
@@ -979,6 +964,9 @@ func vcRunC13NoHandlers(t *vcTrial) {
 			continue
 		}
 		recs = append(recs, rec)
+		// the accept path has stored the connection (a hang-up that overtakes it is D30's subject and
+		// has its own directed trial)
+		vcWaitPoint(t.Mark, vpAcceptAfterStore, rec.ID, time.Second)
 		if r.chance(70) {
 			c.Close() // the peer hangs up (no unread data left behind)
 		} else {
@@ -1006,7 +994,13 @@ func vcRunC13NoHandlers(t *vcTrial) {
 	}
 	for _, rec := range recs {
 		if !rec.waitClosed(2 * time.Second) {
-			t.Violate("C13", "nil_with_open_connection", "Shutdown returned nil but accepted connection fd=%d of a handler-less server has not run its close callbacks (active=%v)", rec.FD, rec.Conn.IsActive())
+			why := ""
+			if vc13HupDuringAccept(vcTraceSince(t.Mark), rec.ID) {
+				// handler-less variant of D30: the untracked connection waits for a user Close that
+				// Shutdown's close pass was supposed to issue
+				why = " [" + vc13ClosedWhileAccepted + "]"
+			}
+			t.Violate("C13", "nil_with_open_connection", "Shutdown returned nil but accepted connection fd=%d of a handler-less server has not run its close callbacks (active=%v)%s", rec.FD, rec.Conn.IsActive(), why)
 			return
 		}
 	}
@@ -1127,4 +1121,28 @@ func vcRunC13ClosedDuringAccept(t *vcTrial) {
 	t.Nontrivial, t.Sig = true, "closed-during-accept"
 }
 
-const vc13ClosedWhileAccepted = "the peer's hang-up closed the connection while its accept was still in progress: the accept path does not track a connection that is already closed, although its handler is running and will tear it down only later"
+const vc13ClosedWhileAccepted = "the peer's hang-up closed the connection while its accept was still in progress: the accept path does not track a connection that is already closed, although it is not torn down yet (its handler is still running, or - without handlers - it waits for the Close that Shutdown's close pass would issue)"
+
+// vc13HupDuringAccept: the trace shows that the peer's hang-up closed connection id before the
+// accept path had stored it (or it was never stored), and its close callbacks have not started:
+// the only code that leaves such a connection out of the server's table is the accept path itself.
+func vc13HupDuringAccept(evs []vcEvent, id uintptr) bool {
+	var tHup, tStore int64
+	cbStarted := false
+	for _, e := range evs {
+		if e.Obj != id {
+			continue
+		}
+		switch int(e.Point) {
+		case vpOnHupAfterCloseBy:
+			if tHup == 0 {
+				tHup = e.T
+			}
+		case vpAcceptAfterStore:
+			tStore = e.T
+		case vpCloseCbBeforeRun:
+			cbStarted = true
+		}
+	}
+	return tHup != 0 && !cbStarted && (tStore == 0 || tHup < tStore)
+}
